@@ -185,3 +185,64 @@ def run_driver(prog, rep, rule="C01.D"):
         rep.check(okb, rule, "%s :: value before shorthand lookup" % f.id, f.loc(), "the attribute value is evaluated once, before shorthands.get(name)",
                   "attribute value evaluation / shorthand lookup order changed")
     return n
+
+
+EARLY_OK = {
+    ("tsg::ast::If", "execute"): "the first arm whose conditions hold wins; later arms are not looked at",
+    ("tsg::ast::If", "execute_lazy"): "the first arm whose conditions hold wins; later arms are not looked at",
+}
+
+
+def success_blocks(body):
+    from ..lib.cfgq import return_carriers
+    rc = return_carriers(body)
+    out = set()
+    for b in sorted(body.reachable()):
+        for st in body.blocks[b]["stmts"]:
+            if st["k"] == "assign" and st["p"]["l"] in rc and "p" not in st["p"] and st["rv"]["k"] == "aggregate" and st["rv"].get("variant") == "Ok":
+                out.add(b)
+    return out
+
+
+def element_loops_complete(prog, rep, rule="E3.all"):
+    """a `for x in &self.<elements>` loop of the interpreters handles *every* element: the only way to the function's success
+    return is the iterator's exhaustion (an early `return Ok(..)` / `break` drops the remaining statements, attributes, arguments)"""
+    from ..lib.cfgq import switch_edges
+    rep.rule(rule, "element loops of the interpreters (statements, attributes, parameters, elements, deferred statements) reach the function's "
+                   "successful return only through the exhausted iterator; listed exception: `if` stops at the first arm that holds")
+    n = 0
+    for f in sorted(prog.shape_fns(), key=lambda x: x.id):
+        if f.body is None or f.crate.prefix != "tsg" or not f.file.startswith("src/execution") or f.name == "fmt":
+            continue
+        body, tr = f.body, Tracer(f.body)
+        loops = forward_loops(body, tr, r"self\.\w+$")
+        if not loops:
+            continue
+        succ = success_blocks(body)
+        for i, (h, bl, nb) in enumerate(sorted(loops)):
+            what = canon(tr.operand(body.term(nb)["args"][0]))
+            m = re.search(r"self\.(\w+)\)*$", what)
+            fld = m.group(1) if m else "?"
+            key = "%s :: for _ in self.%s" % (f.id, fld)
+            n += 1
+            bad = []
+            for b in sorted(bl):
+                for s2 in body.succ(b):
+                    if s2 in bl:
+                        continue
+                    g = [x for x in switch_edges(body, tr, b) if x.dst == s2]
+                    if any(x.variant == "None" and "Iterator::next" in canon(x.cond) for x in g):
+                        continue
+                    # the element's handler failed (`Err(e) => return Err(e)`, the spelled-out or desugared form of `?`): whether
+                    # that failure is kept is E2.d's question, it is not an early *success*
+                    if g and all(x.variant in ("Err", "Break") for x in g):
+                        continue
+                    if body.reach_from([s2]) & succ:
+                        bad.append(sp_str(body.term(b).get("sp")) if body.term(b).get("sp") else "bb%d" % b)
+            why = EARLY_OK.get((f.self_path, f.name))
+            if bad and why:
+                rep.ok(rule, key, f.loc(), "early exit allowed: " + why)
+            else:
+                rep.check(not bad, rule, key, f.loc(), "success only after the last element",
+                          "the loop over self.%s can be left early towards the successful return (%s): the remaining elements are silently not processed" % (fld, ", ".join(bad[:2])))
+    return n
